@@ -1,10 +1,15 @@
 (* C17 runner: corrupted views. corr = the reader model (no well-formedness assumed) predicts the
-   outcome class and value of every read; oracle = no read panics. *)
+   outcome class and value of every read; oracle = no read panics and none returns data the view does not designate. *)
 From Verif Require Export RunC02.
 Local Open Scope nat_scope.
 
 Definition corr (c : Case) : bool :=
   if modelled_arr (c_view c) then forallb (read_corr (c_view c)) (c_reads c) else true.
+(* oracle: no read panics, and no read hands out a value where the reader specification - which never leaves the ranges the view
+   designates (C17_no_foreign_rows, C17_child_at_faithful) - finds nothing to hand out: that value can only be foreign data *)
 Definition oracle (c : Case) : bool :=
-  forallb (fun r : nat * Outcome (option RVal) => match snd r with Panic _ => false | _ => true end) (c_reads c).
+  forallb (fun r : nat * Outcome (option RVal) => match snd r with Panic _ => false | _ => true end) (c_reads c)
+  && (if modelled_arr (c_view c)
+      then forallb (fun r : nat * Outcome (option RVal) => match snd r, read_top (c_view c) (fst r) with Ok _, Err => false | _, _ => true end) (c_reads c)
+      else true).
 Definition info (cs : list Case) : list N := [N.of_nat (length (flat_map c_reads cs)); N.of_nat (length (flat_map c_reads (filter (fun c => modelled_arr (c_view c)) cs)))].
